@@ -57,3 +57,17 @@ Definition e_pair {A B} (f : A -> sx) (g : B -> sx) (p : A * B) : sx := LL [f (f
 Definition e_opt {A} (f : A -> sx) (o : option A) : sx := match o with Some a => f a | None => SS "none" end.
 Definition e_rec (l : list (string * sx)) : sx := LL (map (fun p => LL [SS (fst p); snd p]) l).
 Definition illformed : sx := SS "illformed".
+
+(** structural equality on interchange values (used for finite-table comparisons) *)
+Fixpoint sx_eqb (a b : sx) : bool :=
+  match a, b with
+  | ZZ x, ZZ y => Z.eqb x y
+  | QQ x, QQ y => Qceqb x y
+  | ZZ x, QQ y | QQ y, ZZ x => Qceqb (qz x) y
+  | SS x, SS y => String.eqb x y
+  | LL l, LL m => (fix go (l m : list sx) : bool :=
+                     match l, m with
+                     | [], [] => true
+                     | x :: l', y :: m' => sx_eqb x y && go l' m'
+                     | _, _ => false end) l m
+  | _, _ => false end.
